@@ -2,7 +2,10 @@
 
 package sod
 
-import "time"
+import (
+	"encoding/json"
+	"time"
+)
 
 // C10 — async writes: visible at once, flushed by threshold/timeout,
 // complete at Close.
@@ -272,4 +275,71 @@ func VH_C10_shared() {
 		vAssert("C10.shared.b_settings_kept", sb.AsyncWrites != nil && sb.AsyncWrites.Enable && sb.AsyncWrites.Threshold == thr && sb.AsyncWrites.Timeout == time.Hour)
 	}
 	vhRichReads("C10.shared.b_reopen", db2, rich)
+}
+
+// vSlowField gives the background goroutines time while it is being decoded,
+// i.e. while the foreground read that decodes it holds the handle's read lock
+// (natively: the decoding takes that long).
+type vSlowField struct{ V int64 }
+
+var vSlowTicks int
+
+func (s *vSlowField) UnmarshalJSON(b []byte) error {
+	if vSlowTicks > 0 {
+		vRunSpawned(vSlowTicks)
+	}
+	var v int64
+	if err := json.Unmarshal(b, &v); err != nil {
+		return err
+	}
+	s.V = v
+	return nil
+}
+
+func (s vSlowField) MarshalJSON() ([]byte, error) { return json.Marshal(s.V) }
+
+type vSlowObj struct {
+	Item
+	A int64 `sod:"index"`
+	F vSlowField
+}
+
+// VH_C10_busy_reader: "for all relative timings of the background flusher
+// versus foreground calls": the timeout elapses while a slow read is in
+// progress, and the next slow read follows at once.  The flusher asked for
+// the lock during the first read and a waiting writer goes before later
+// readers (sync.RWMutex), so that when the second read returns the pending
+// writes are on disk — the handle is never idle in between, and no further
+// call is needed.
+func VH_C10_busy_reader() {
+	root := vTempDir()
+	db := Open(root)
+	vSlowTicks = 0
+	defer func() { vSlowTicks = 0 }()
+	// one object already on disk (written synchronously), to be read slowly
+	s := DefaultSchema
+	vAssert("C10.busy.create", db.Create(&vSlowObj{}, s) == nil)
+	var stored []*vSlowObj
+	for k := 0; k < 3; k++ { // one per read: a cached object would not be decoded again
+		o := &vSlowObj{A: int64(k), F: vSlowField{7}}
+		vAssert("C10.busy.stored", db.InsertOrUpdate(o) == nil)
+		stored = append(stored, o)
+	}
+	vAssert("C10.busy.close", db.Close() == nil)
+	db = Open(root)
+	timeout := 100 * time.Millisecond
+	threshold := 1 + vChoice("threshold", 2)*4 // reached at once, or only the timeout counts
+	vAssert("C10.busy.recreate", db.Create(&vSlowObj{}, vhAsyncSchema(threshold, timeout)) == nil)
+	cnt, cerr := db.Count(&vSlowObj{})
+	vAssert("C10.busy.count", cerr == nil && cnt == 3)
+	pending := &vSlowObj{A: vInt64("A"), F: vSlowField{8}}
+	vAssert("C10.busy.insert", db.InsertOrUpdate(pending) == nil)
+	vSlowTicks = 4 // each read lasts four polling periods: the timeout elapses inside the first
+	reads := 2 + vChoice("reads", 2)
+	for k := 0; k < reads; k++ {
+		g, err := db.GetByUUID(&vSlowObj{}, stored[k].UUID())
+		vAssert("C10.busy.read", err == nil && g.(*vSlowObj).F.V == 7)
+	}
+	vSlowTicks = 0
+	vAssert("C10.busy.on_disk", vFileExists(root+"/sod.vSlowObj/"+pending.UUID()+".json"))
 }
